@@ -91,6 +91,26 @@ def extra(case, lines, rot):
             bad.append(('line_numbers(offset=%s,start=%d)' % (offset, start), want_nums, nums))
         if len(txt) != len(exp):
             bad.append(('numbered_line_count', len(exp), len(txt)))
+    # the same docstring as the freeform collector builds it (all groups lumped into one doctest, prose dropped): the numbers
+    # are positions counted from the first prompt line / in the file
+    from xdoctest import core
+    with warnings.catch_warnings():
+        warnings.simplefilter('ignore')
+        exs = list(core.parse_docstr_examples(text, callname='c18', style='freeform', lineno=start))
+    if len(exs) == 1 and exp_idx:
+        e = exs[0]
+        for offset in (False, True):
+            txt = e.format_src(linenos=True, colored=False, want=True, prefix=True, offset_linenos=offset).split('\n')
+            nums = []
+            for ln in txt:
+                m = re.match(r'^\s*(\d+) (>>>|\.\.\.)', ln)
+                if m:
+                    nums.append(int(m.group(1)))
+            want_nums = [(j + start - 1) if offset else (j - exp_idx[0] + 1) for j in exp_idx]
+            if nums != want_nums:
+                bad.append(('freeform_line_numbers(offset=%s,start=%d)' % (offset, start), want_nums, nums))
+    elif exp_idx:
+        bad.append(('freeform_collection', 'one doctest', len(exs)))
     # parse the formatted text again
     if exp:
         try:
